@@ -578,6 +578,10 @@ class Checker:
             if got is None:
                 got = [{(d['src'],): 1}]
             gs = sorted(pshow(g) for g in got)
+            if pshow(w) in ('1', '2'):
+                # the low byte(s) of E and of E converted to an integer type at least that wide are the same bytes
+                wide = '(?:unsigned |signed )?(?:char|short|int|long|long long)|unsigned long|size_t' if pshow(w) == '1' else '(?:unsigned |signed )?(?:short|int|long|long long)|unsigned long|size_t'
+                gs = sorted(re.sub(r'^(?:\((?:%s)\))+' % wide, '', g_) for g_ in gs)
             if gs != sorted(vals):
                 self.bad(slot, d['where'], 'value written is %s, specified %s' % (' | '.join(gs), ' | '.join(vals)), facts={'cite': cite})
                 return d
@@ -586,6 +590,11 @@ class Checker:
             want = sorted((v, tuple(sorted(c.items()))) for v, c in cases)
             have = sorted((pshow(v), tuple(sorted(c.items()))) for v, c in got)
             if want != have:
+                if any(re.search(r'\((?:unsigned |signed )?(?:char|short)\)(?:local:|arg\d|this\.)', str(v_)) for v_, _c in have) and pshow(d.get('width')) == '1':
+                    # the low byte taken by a narrowing conversion instead of by address: the same byte, but the value behind the
+                    # conversion is not tabulated per condition
+                    self.shape(slot, d['where'], 'the byte written is %s: a narrowing conversion of a value the rule does not follow per condition' % [v_ for v_, _c in have])
+                    return d
                 self.bad(slot, d['where'], 'value written per condition is %s, specified %s' % (have, want), facts={'cite': cite})
                 return d
         if src is not None and d.get('src') != src:
@@ -2754,9 +2763,21 @@ def reemission_rule(prog, res, rule='re-emission'):
                 find_opaque(ex.seq_of(wr))
                 Rw = Renderer(wr)
                 used = any(n_['k'] == 'MemberExpr' and n_.get('member') == m and n_.get('fclass') == cls for n_ in wr.nodes)
+                if not used:
+                    # ... or through its getter (rendered as the member it returns)
+                    for n_ in wr.nodes:
+                        if n_['k'] in ('CXXMemberCallExpr',) and n_.get('callee', {}).get('class') == cls and not f.call_args(n_) if False else False:
+                            pass
+                    try:
+                        used = any(('this.%s' % m) in Rw.render(n_['id']) for n_ in wr.nodes if n_['k'] == 'CXXMemberCallExpr' and n_.get('callee', {}).get('class') == cls and n_['callee'].get('const'))
+                    except Exception:
+                        used = False
                 if opaque and used:
                     res.undecided(rule, inst, wr.loc(), 'member %s is read by the writer and the writer emits a local buffer the extractor does not tabulate (%s): cannot tell whether it is emitted' %
                                   (m, opaque[0].get('src')), function=wr.sig, expr=m)
+                elif used:
+                    res.undecided(rule, inst, wr.loc(), 'member %s is read by the writer, but none of the values the extractor tabulates depends on it: it reaches the file (if it does) through a form the rule does not '
+                                  'read [shape not read by the rule]' % m, function=wr.sig, expr=m)
                 else:
                     res.viol(rule, inst, wr.loc(), 'member %s is filled by the reader but the writer never emits it: it is lost on load -> save' % m, function=wr.sig, expr=m)
     res.minimum('reader-assigned members', total, 30)
@@ -2772,7 +2793,8 @@ def fits_by_writers(prog, cls, field, nbytes, signed=False):
     for f, nid, rhs in _c18.field_writes(prog, cls, field):
         if rhs is None:
             return False, 'modified in place at %s' % f.loc(nid)
-        n = f.nodes[f.strip(rhs, 'all')]
+        lr = lambda_result(f, rhs)
+        n = f.nodes[f.strip(lr if lr is not None else rhs, 'all')]
         if 'cv' in n:
             v = int(n['cv'])
             if 0 <= v < lim:
@@ -3148,7 +3170,32 @@ def member_values(prog, cls, field):
     return out
 
 
+def lambda_result(f, i):
+    """node i is a call of a local lambda without parameters whose body is `return <expr>;`  -> node of <expr>, else None"""
+    n = f.nodes[f.strip(i, 'all')]
+    if n['k'] != 'CXXOperatorCallExpr' or n.get('op') != '()' or not n.get('args'):
+        return None
+    o_ = f.nodes[f.strip(n['args'][0], 'all')]
+    if o_['k'] != 'DeclRefExpr' or o_['decl'].get('dk') != 'local':
+        return None
+    from paths import local_init
+    ini = local_init(f, o_['decl']['id'])
+    if ini is None:
+        return None
+    for x in [ini] + list(f.descendants(ini)):
+        lam = f.nodes[x]
+        if lam['k'] == 'LambdaExpr' and not lam.get('lparams'):
+            body = [y for y in lam['ch'] if f.nodes[y]['k'] == 'CompoundStmt']
+            st = [f.nodes[y] for y in f.nodes[body[0]]['ch']] if body else []
+            if len(st) == 1 and st[0]['k'] == 'ReturnStmt' and st[0]['ch']:
+                return st[0]['ch'][0]
+    return None
+
+
 def expr_values(prog, f, i, depth):
+    lr = lambda_result(f, i)
+    if lr is not None:
+        return expr_values(prog, f, lr, depth)
     n = f.nodes[f.strip(i, 'all')]
     if 'cv' in n:
         return [('const', int(n['cv']))]
